@@ -141,9 +141,11 @@ def check_construct(run, db):
             problems.append('no exceptional path found although the element constructor may throw')
         # the placement address of the construction
         place_dids = set()
+        lv = common.single_assignment_locals(f)
         for e, t in news:
             for pa in t.get('placement', []):
-                for sub in subterms(pa):
+                # a local that merely names the cursor (`void* const storage = cur;`) is the cursor
+                for sub in subterms(common.expand_locals(pa, lv)):
                     if sub.get('k') == 'local':
                         place_dids.add(sub['did'])
         for s in exc:
@@ -377,19 +379,68 @@ def check_builder(run, db):
 
 
 def check_destroy_loop(run, db, dtor, base, bound, site_name):
+    """the destructor destroys exactly the elements base[0 .. bound): a counted loop (engine/loops.py; index or pointer cursor, for /
+    while / do, up or down; begin() / end() accessors seen through) whose body destroys the element at the cursor once per cycle,
+    starting at the first (or last) element and running `bound` cycles"""
+    from engine import loops, linear
     inst = '%s [%s]' % (dtor.display, db.config)
-    loops = []
-    for bid, b in dtor.blocks.items():
-        t = b.get('term')
-        if t and t.get('cls') in ('ForStmt', 'WhileStmt') and 'cond' in t:
-            loops.append(sym.canon(t['cond']))
-    dt = [t for e, t in flow.call_events(dtor) if t.get('short') == '<dtor>']
-    okk = any(bound in c and '!=' in c or (bound in c and '<' in c) for c in loops) and any(base in sym.canon(t.get('recv')) for t in dt)
-    if okk:
+    dt = [(e, t) for e, t in flow.call_events(dtor) if t.get('short') == '<dtor>']
+    lps = [lp for lp in loops.find_loops(dtor) if any(e.block in lp.body for e, t in dt)]
+    why = None
+    loops_txt = [sym.canon(lp.cond) for lp in loops.find_loops(dtor) if isinstance(lp.cond, dict)]
+    if not lps:
+        why = 'no loop destroys elements'
+    else:
+        lp = lps[0]
+        c = loops.counted(lp)
+        inl = [(e, t) for e, t in dt if e.block in lp.body]
+        if isinstance(c, str):
+            why = c
+        elif len(inl) != 1 or not loops.once_per_cycle(lp, inl[0][0].block):
+            why = 'the loop does not destroy exactly one element per cycle'
+        else:
+            e_d, t_d = inl[0]
+            lv = common.single_assignment_locals(dtor)
+            lv.pop(c.did, None)
+            ckey = sym.canon(c.ctr_term)
+            for vals, pre in loops.entry_state(dtor, lp, db=db, roles={}):
+                ex = lambda t: loops.expand_accessors(db, loops.subst_vals(dtor, common.expand_locals(t, lv), {k: v for k, v in vals.items() if k != c.did}))
+                recv = sym.strip_casts(ex(t_d.get('recv') or {}))
+                # address of the destroyed element, in elements
+                if recv.get('k') == 'bin' and recv.get('op') == '[]':
+                    addr = linear._add(linear.lin(recv['l']), linear.lin(recv['r']), 1)
+                elif recv.get('k') == 'un' and recv.get('op') == '*':
+                    addr = linear.lin(recv['e'])
+                else:
+                    addr = linear.lin(recv)
+                if addr.get(ckey) != 1:
+                    why = 'the destroyed element (%s) is not the one at the loop cursor' % sym.canon(recv)[:60]
+                    break
+                I = linear.lin(ex(loops.subst_vals(dtor, c.ctr_term, vals)))
+                B = linear.lin(ex(loops.subst_vals(dtor, c.bound, vals)))
+                T, needs = loops.evaluations(c, I, B)
+                runs = loops.executions(c, e_d.block, T)
+                first = linear._add({k: v for k, v in addr.items() if k != ckey}, I, 1)
+                if c.ca and _step_before(dtor, lp, c, e_d):
+                    first = linear._add(first, {'': c.step}, 1)
+                want_first = {base: 1} if c.step == 1 else {base: 1, bound: 1, '': -1}
+                if runs != {bound: 1}:
+                    why = 'the loop destroys [%s] elements, not %s' % (linear.fmt(runs), bound)
+                elif first != want_first:
+                    why = 'the loop starts at [%s], not at the %s element of %s' % (linear.fmt(first), 'first' if c.step == 1 else 'last', base)
+    if why is None:
         run.ok('R-GUARD-ELEM', inst, dtor.loc, 'destroys %s[i] for i in [0, %s)' % (base, bound))
     else:
-        run.violation('R-GUARD-ELEM', inst, dtor.loc, 'destructor does not destroy exactly the elements [0, %s) (loops: %s)' % (bound, loops),
+        run.violation('R-GUARD-ELEM', inst, dtor.loc, 'destructor does not destroy exactly the elements [0, %s): %s (loops: %s)' % (bound, why, loops_txt),
                       site={'function': site_name, 'role': 'destroy constructed elements'})
+
+
+def _step_before(f, lp, c, ev):
+    from engine import loops
+    for e in f.events():
+        if e.block in lp.body and loops._counter_step(e, c.did) not in (0, None):
+            return f.ev_dominates(e, ev)
+    return False
 
 
 def guarded_from_entry(db, f, memo, depth=0):
